@@ -26,22 +26,27 @@ from ..sexp import Sym, dumps, loads
 
 META = dict(
     text="Lean theorems (PPProofs/Props/C19.lean) over a statement-by-statement model of "
-         "reset_pyparsing_context.save/restore and of every public setter: FULL STRENGTH restore_total_and_exact / "
-         "live_restore_total_and_exact (for every reachable entry state and every well-nested finite command sequence "
-         "incl. force=True switches and nested contexts: no __enter__/__exit__ raises, every setting and the "
-         "recursion_memos object are back, enclosing contexts untouched; built-ins' whiteChars are back when they "
-         "were in sync with the default on entry), restore_exact (one context, arbitrary inside state), "
-         "packrat_lr_exclusive + packrat_lr_never_both + parse_selector_follows_packrat (refuse unless force; never both on "
-         "and _parse is the caching function exactly while packrat is on, any history), "
-         "enablePackrat_idempotent/_twice, users_untouched (no setting change or context touches an existing user "
-         "expression). PARTIAL: default_ws_scope_partial speaks about the whiteChars/copyDefaultWhiteChars "
-         "attributes only; that these decide what an expression skips is checked on the real parser by the oracle. "
-         "builtins_unsynced_not_restored proves that the pristine built-in line_start is NOT restored (known finding). "
-         "Cache/memo contents are not settings and are not modelled.",
-    note="Trusted: Lean kernel; axioms propext/Classical.choice/Quot.sound; the Settings transcription (tied to "
-         "/repo by the differential run on every check: full raw state incl. object identity of the cache/memo tables "
-         "after every command) and the regenerated class data; the Python snapshot function "
-         "(reads class attributes, .size, ._capacity). Parse-time behaviour of whitespace skipping is oracle-checked only.",
+         "reset_pyparsing_context.save/restore and of every public setter with its guards. FULL STRENGTH: "
+         "restore_total_and_exact / live_restore_total_and_exact (for every entry state reachable from import and every "
+         "well-nested finite command sequence incl. force=True switches, bad capacities, unknown flag names and nested "
+         "contexts: no __enter__/__exit__ raises, every listed setting and the recursion_memos object are back to their "
+         "entry values, enclosing contexts untouched; the built-ins' whiteChars are back when they were in sync with the "
+         "default on entry), restore_exact (one context, arbitrary state inside), new_expr_after_exit, "
+         "packrat_lr_exclusive + packrat_lr_never_both + parse_selector_follows_packrat (each setter refuses while the "
+         "other mode is on unless force=True; never both on, and _parse is the caching function exactly while packrat is "
+         "on, after any history), enablePackrat_idempotent/_twice, users_untouched (no setting change and no context "
+         "entry/exit touches an existing user expression). PARTIAL: default_ws_scope_partial speaks about the "
+         "whiteChars/copyDefaultWhiteChars attributes (new expressions, copies, composites over existing expressions, "
+         "built-ins, existing user expressions); that these attributes decide what an expression skips is checked on the "
+         "real parser by the oracle only. builtins_unsynced_not_restored proves that the pristine built-in line_start is "
+         "NOT restored when the default is changed inside a context (open known finding). Cache/memo contents are not "
+         "settings and are not modelled.",
+    note="Trusted: Lean kernel; axioms propext/Classical.choice/Quot.sound; the Settings transcription (tied to /repo by "
+         "a differential run on every check: full raw state incl. object identity of the cache/memo tables after every "
+         "command of random and exhaustive histories) and the class data regenerated from the live package into "
+         "PPProofs/Props/Gen/Settings.lean; the Python snapshot function (class attributes, .size, ._capacity). "
+         "Settings are assumed to be changed only through the public setters (direct assignment only for "
+         "verbose_stacktrace and __compat__ flags). Parse-time whitespace skipping is oracle-checked only.",
     technique="Lean 4 proof over a transcribed settings/context machine + differential correspondence on histories",
     design="§5 C19",
 )
